@@ -1544,18 +1544,32 @@ fn map_string_to_cql_type(typ: &str) -> Result<PreColumnType, InvalidCqlType> {
     }
 }
 
+/// Maximum nesting depth of a type string of the schema tables. The parser recurses once per
+/// nesting level, so without a bound a few kilobytes of `frozen<frozen<...` overflow the stack.
+const MAX_CQL_TYPE_NESTING_DEPTH: usize = 128;
+
 fn parse_cql_type(p: ParserState<'_>) -> ParseResult<(PreColumnType, ParserState<'_>)> {
+    parse_cql_type_nested(p, 0)
+}
+
+fn parse_cql_type_nested(
+    p: ParserState<'_>,
+    depth: usize,
+) -> ParseResult<(PreColumnType, ParserState<'_>)> {
+    if depth > MAX_CQL_TYPE_NESTING_DEPTH {
+        return Err(p.error(ParseErrorCause::Other("type nested too deeply")));
+    }
     if let Ok(p) = p.accept("frozen<") {
-        let (inner_type, p) = parse_cql_type(p)?;
+        let (inner_type, p) = parse_cql_type_nested(p, depth + 1)?;
         let p = p.accept(">")?;
 
         let frozen_type = freeze_type(inner_type);
 
         Ok((frozen_type, p))
     } else if let Ok(p) = p.accept("map<") {
-        let (key, p) = parse_cql_type(p)?;
+        let (key, p) = parse_cql_type_nested(p, depth + 1)?;
         let p = p.accept(",")?.skip_white();
-        let (value, p) = parse_cql_type(p)?;
+        let (value, p) = parse_cql_type_nested(p, depth + 1)?;
         let p = p.accept(">")?;
 
         let typ = PreColumnType::Collection {
@@ -1565,7 +1579,7 @@ fn parse_cql_type(p: ParserState<'_>) -> ParseResult<(PreColumnType, ParserState
 
         Ok((typ, p))
     } else if let Ok(p) = p.accept("list<") {
-        let (inner_type, p) = parse_cql_type(p)?;
+        let (inner_type, p) = parse_cql_type_nested(p, depth + 1)?;
         let p = p.accept(">")?;
 
         let typ = PreColumnType::Collection {
@@ -1575,7 +1589,7 @@ fn parse_cql_type(p: ParserState<'_>) -> ParseResult<(PreColumnType, ParserState
 
         Ok((typ, p))
     } else if let Ok(p) = p.accept("set<") {
-        let (inner_type, p) = parse_cql_type(p)?;
+        let (inner_type, p) = parse_cql_type_nested(p, depth + 1)?;
         let p = p.accept(">")?;
 
         let typ = PreColumnType::Collection {
@@ -1587,7 +1601,7 @@ fn parse_cql_type(p: ParserState<'_>) -> ParseResult<(PreColumnType, ParserState
     } else if let Ok(p) = p.accept("tuple<") {
         let mut types = Vec::new();
         let p = p.parse_while(|p| {
-            let (inner_type, p) = parse_cql_type(p)?;
+            let (inner_type, p) = parse_cql_type_nested(p, depth + 1)?;
             types.push(inner_type);
 
             if let Ok(p) = p.accept(",") {
@@ -1602,7 +1616,7 @@ fn parse_cql_type(p: ParserState<'_>) -> ParseResult<(PreColumnType, ParserState
 
         Ok((PreColumnType::Tuple(types), p))
     } else if let Ok(p) = p.accept("vector<") {
-        let (inner_type, p) = parse_cql_type(p)?;
+        let (inner_type, p) = parse_cql_type_nested(p, depth + 1)?;
 
         let p = p.skip_white();
         let p = p.accept(",")?;
